@@ -60,6 +60,17 @@ M = [
  ("empty-id-fixed", "parsed_packet.rs", "let tid: u16 = rng.random();", "let tid: u16 = 4;", "C17"),
 ]
 
+# Mutants that turned out to be equivalent (no input distinguishes them from the original): analysed by hand.
+EQUIVALENT = {
+ "mx-rdlen-min": "an MX with rdlen 2 is rejected anyway by the exact-fit test (a name needs at least one byte)",
+ "soa-rdlen-min": "rdlen 20/21 is rejected anyway by the exact-fit test (two names need at least two bytes)",
+ "pointer-to-segment-start": "a pointer back to the start of the current segment is then rejected by the barrier test (Cycle)",
+ "compress-min-suffix": "no complete name has a wire length of exactly 2",
+ "compress-16384": "an entry stored at offset 16384 can never be looked up: every later lookup happens beyond 16384 and returns early",
+ "cabi-iter-ns-is-answer": "the three record-section tags select the same ResponseIterator code in every table entry",
+ "recompute-keeps-cache": "decompression does not change the question, so the stale cache still holds the right value",
+}
+
 # Behaviour-preserving (or still-correct) variants: every listed check must stay SILENT on them.
 BENIGN = [
  ("benign-reworded-void-record", "errors.rs", '#[error("Void record")]', '#[error("This record was deleted")]', "C10 C11 C15 C16"),
@@ -102,7 +113,7 @@ def main():
                 elif r.returncode != 0:
                     print(r.stdout[-600:])
             print(f"RESULT {name}: caught-by {' '.join(caught) if caught else 'NONE'} (ran {checks})")
-            rows.append((name, f, checks, 'caught by ' + ' '.join(caught) if caught else 'NOT CAUGHT'))
+            rows.append((name, f, checks, 'caught by ' + ' '.join(caught) if caught else ('not caught - equivalent mutant: ' + EQUIVALENT[name] if name in EQUIVALENT else 'NOT CAUGHT')))
         finally:
             sh('git -C /repo checkout -- .')
         sys.stdout.flush()
